@@ -234,6 +234,14 @@ for _pid, _more in {
 }.items():
     CHECKS[_pid]["text"] += _more
 
+for _pid, _more in {
+    "C03": " A left side that is one list value (empty list, lists, scalars) x 3 spellings of `in`: every negated spelling flips the verdict.",
+    "C08": " 19 built-in function calls x 27 unusual values (empty string, non-ASCII, 5000 characters, malformed escapes, wrong kinds) must end in a result or a diagnostic.",
+    "C11": " Empty sequences (`[]`, `[[]]`, `[{}]`) go through every sequence short form.",
+    "C17": " 12% of the overlap cases carry a null value under the doubly defined key.",
+}.items():
+    CHECKS[_pid]["text"] += _more
+
 def main():
     props = [json.loads(l) for l in open(os.path.join(core.VERIF, "properties.jsonl"))]
     checks = []
